@@ -192,7 +192,8 @@ pub fn statement_for(q: &J, jpath: &str, tdef: &str) -> String {
     }
     s += " FROM t";
     match q["join"].as_str().unwrap() {
-        "inner" => s += &format!(" INNER JOIN u::{} ON {}", quote(jpath), if tdef == "numjoin" { "t.v = u.w" } else { "t.k = u.k" }),
+        // (ON a.x = b.y names the two sides in either order: statements without WHERE write the joined side first)
+        "inner" => s += &format!(" INNER JOIN u::{} ON {}", quote(jpath), if tdef == "numjoin" { "t.v = u.w" } else if is_none(&q["where"]) { "u.k = t.k" } else { "t.k = u.k" }),
         "outer" => s += &format!(" OUTER JOIN u::{} ON {}", quote(jpath), if tdef == "numjoin" { "u.w = t.v" } else { "t.k = u.k" }),
         _ => {}
     }
@@ -210,6 +211,9 @@ pub fn statement_for(q: &J, jpath: &str, tdef: &str) -> String {
 pub fn table_defs(tdef: &str) -> String {
     let (kmod, vmod) = match tdef { "knn" => (" NOT NULL", ""), "vdef" => ("", " DEFAULT 7"), "bothnn" => (" NOT NULL", " NOT NULL"), _ => ("", "") };
     let (a, z) = if tdef == "anch" { ("^", "$") } else { ("", "") };
+    if tdef == "vreal" {
+        return "CREATE TABLE t(line = 'k=([a-z]+)? v=(-?[0-9.]+)?', line[1] => k TEXT, line[2] => v REAL);\nCREATE TABLE u(jl = 'k=([a-z]+)? v=(-?[0-9]+)?', jl[1] => k TEXT, jl[2] => w INT);".to_string();
+    }
     format!("CREATE TABLE t(line = '{}k=([a-z]+)? v=(-?[0-9]+)?{}', line[1] => k TEXT{}, line[2] => v INT{});\n\
              CREATE TABLE u(jl = 'k=([a-z]+)? v=(-?[0-9]+)?', jl[1] => k TEXT, jl[2] => w {});", a, z, kmod, vmod, if tdef == "numjoin" { "REAL" } else { "INT" })
 }
@@ -217,7 +221,7 @@ pub fn table_defs(tdef: &str) -> String {
 pub fn line_text(l: &J) -> String {
     match l["kind"].as_str().unwrap() {
         "kv" => format!("k={} v={}", if l["k"]["t"] == "null" { String::new() } else { text_of(&l["k"]) },
-                        if l["v"]["t"] == "null" { String::new() } else { int_of(&l["v"]).to_string() }),
+                        if l["v"]["t"] == "null" { String::new() } else if l["v"]["t"] == "real" { format!("{:.2}", real_of(&l["v"])) } else { int_of(&l["v"]).to_string() }),
         "garbage" => "###".into(),
         "empty" => String::new(),
         "near" => "k=a v1".into(),
